@@ -4,6 +4,7 @@ import (
 	"bytes"
 	"fmt"
 	"go/parser"
+	"go/scanner"
 	"go/token"
 	"os"
 	"strconv"
@@ -194,6 +195,29 @@ func unquoteAll(lits []string) (string, bool) {
 }
 
 // oracleFails evaluates one named oracle of C18 on the implementation for input x.
+// riMemo: the oracles of one case look at the same two calls (the runner's main loop is
+// single-threaded; the first oracle of every case makes fresh calls, which also feed the
+// result-stability check).
+var memoRI struct {
+	x   []byte
+	o   [2]riOut
+	set [2]bool
+}
+
+func riMemo(x []byte, report bool) riOut {
+	i := 0
+	if report {
+		i = 1
+	}
+	if !bytes.Equal(memoRI.x, x) || memoRI.x == nil {
+		memoRI.x, memoRI.set = append([]byte{}, x...), [2]bool{}
+	}
+	if !memoRI.set[i] {
+		memoRI.o[i], memoRI.set[i] = implRI(x, report), true
+	}
+	return memoRI.o[i]
+}
+
 func oracleC18(name string, x []byte) (bad bool, impl, want string) {
 	switch name {
 	case "no-panic/terminates":
@@ -208,7 +232,7 @@ func oracleC18(name string, x []byte) (bad bool, impl, want string) {
 		}
 	case "output-is-prefix":
 		for _, rep := range []bool{true, false} {
-			o := implRI(x, rep)
+			o := riMemo(x, rep)
 			if !o.panicked && !o.hung && !bytes.HasPrefix(sansBOM(x), o.out) && !bytes.HasPrefix(x, o.out) {
 				return true, o.show(), "a prefix of the input"
 			}
@@ -217,13 +241,15 @@ func oracleC18(name string, x []byte) (bad bool, impl, want string) {
 			return true, o.show(), "a prefix of the input"
 		}
 	case "no-report-whole":
-		// a syntax error seen with reportSyntaxError=true must, with false, give the whole input and a
-		// nil error (or the NUL error when the rest of the input contains a NUL byte)
-		o1 := implRI(x, true)
-		if o1.panicked || o1.hung || o1.e != "syntax" {
+		// whatever ReadImports reports with reportSyntaxError=true -- the plain syntax error or any
+		// other error value it may choose for one -- must, with false, give the whole input and a nil
+		// error (or the NUL error when the input contains a NUL byte).  A NUL met while the imports
+		// are being read is the NUL error in both modes.
+		o1 := riMemo(x, true)
+		if o1.panicked || o1.hung || o1.e == "nil" || o1.e == "nul" {
 			return false, "", ""
 		}
-		o0 := implRI(x, false)
+		o0 := riMemo(x, false)
 		if o0.panicked || o0.hung {
 			return false, "", ""
 		}
@@ -234,6 +260,50 @@ func oracleC18(name string, x []byte) (bad bool, impl, want string) {
 			return false, "", ""
 		}
 		return true, o0.show(), "the whole input and a nil error"
+	case "no-report-no-error":
+		// "when syntax errors are not requested": over an in-memory reader the only error left is the
+		// NUL error, and only for an input that contains a NUL byte (independent of what the other
+		// mode says)
+		o0 := riMemo(x, false)
+		if o0.panicked || o0.hung || o0.e == "nil" || (o0.e == "nul" && bytes.IndexByte(x, 0) >= 0) {
+			return false, "", ""
+		}
+		return true, o0.show(), "a nil error (reportSyntaxError=false, no NUL in the input)"
+	case "flag-irrelevant-without-error":
+		// the flag decides what happens to an error and nothing else: a file read without error gives
+		// the same imports and the same bytes in both modes
+		o1 := riMemo(x, true)
+		if o1.panicked || o1.hung || o1.e != "nil" {
+			return false, "", ""
+		}
+		o0 := riMemo(x, false)
+		if o0.panicked || o0.hung {
+			return false, "", ""
+		}
+		if o0.show() != o1.show() {
+			return true, o0.show(), o1.show()
+		}
+	case "same-errors-for-the-later-parse":
+		// "... returns the whole input so that a later full parse reports the same errors": whenever
+		// the reader finds fault with the input in either mode, what it returns with
+		// reportSyntaxError=false must make go/parser (the consumer parses the returned bytes, as
+		// go/build does) say exactly what it says about the input itself
+		// (one leading byte-order mark aside: the reader drops it, the parser skips it; a second one
+		// is an error to the parser only while the first is still in front of it -- not compared)
+		if bytes.IndexByte(x, 0) >= 0 || bytes.HasPrefix(sansBOM(x), bomBytes) {
+			return false, "", ""
+		}
+		o1, o0 := riMemo(x, true), riMemo(x, false)
+		if o1.panicked || o1.hung || o0.panicked || o0.hung || (o1.e == "nil" && o0.e == "nil") {
+			return false, "", ""
+		}
+		want := parserErrors(sansBOM(x))
+		if o0.e != "nil" {
+			return true, "error " + o0.e + " instead of bytes to parse; " + o0.show(), "go/parser on the input: " + clipN(want, 400)
+		}
+		if got := parserErrors(sansBOM(o0.out)); got != want {
+			return true, "go/parser on the returned bytes: " + clipN(got, 400), "go/parser on the input: " + clipN(want, 400)
+		}
 	case "agrees-with-go/parser":
 		ok, lits := parserImports(x, 0)
 		if !ok {
@@ -243,7 +313,7 @@ func oracleC18(name string, x []byte) (bad bool, impl, want string) {
 		if !okq {
 			return false, "", ""
 		}
-		o := implRI(x, true)
+		o := riMemo(x, true)
 		if o.panicked || o.hung {
 			return false, "", "" // reported by no-panic
 		}
@@ -257,7 +327,7 @@ func oracleC18(name string, x []byte) (bad bool, impl, want string) {
 			return false, "", ""
 		}
 		want, okq := unquoteAll(lits)
-		o := implRI(x, true)
+		o := riMemo(x, true)
 		if !okq || o.panicked || o.hung || o.e != "nil" {
 			return false, "", ""
 		}
@@ -273,7 +343,25 @@ func oracleC18(name string, x []byte) (bad bool, impl, want string) {
 	return false, "", ""
 }
 
-var oraclesC18 = []string{"no-panic/terminates", "output-is-prefix", "no-report-whole", "agrees-with-go/parser", "prefix-reparses"}
+var oraclesC18 = []string{"no-panic/terminates", "output-is-prefix", "no-report-whole", "no-report-no-error", "flag-irrelevant-without-error",
+	"same-errors-for-the-later-parse", "agrees-with-go/parser", "prefix-reparses"}
+
+// parserErrors: what go/parser (imports only, its usual limit of ten errors) says about src.
+func parserErrors(src []byte) string {
+	fset := token.NewFileSet()
+	_, err := parser.ParseFile(fset, "x.go", src, parser.ImportsOnly)
+	if err == nil {
+		return "no errors"
+	}
+	if el, ok := err.(scanner.ErrorList); ok {
+		var parts []string
+		for _, e := range el {
+			parts = append(parts, fmt.Sprintf("%d:%d: %s", e.Pos.Line, e.Pos.Column, e.Msg))
+		}
+		return strings.Join(parts, "; ")
+	}
+	return err.Error()
+}
 
 // ---------------------------------------------------------------- grammar-based generator
 
@@ -517,6 +605,21 @@ func runC18(rn *runner) {
 		rn.caseC18([]byte(h), "hand", nil)
 		rn.caseC18(append(append([]byte{}, bomBytes...), h...), "hand+BOM", nil)
 	}
+	// every kind of syntax error at every reader position (quick: every other combination, the
+	// phase chosen by the seed; thorough: all)
+	stride := 2
+	if f.Tier == "thorough" {
+		stride = 1
+	}
+	phase := int(f.Seed % 2)
+	k := 0
+	breakCases(1, func(name string, x []byte) {
+		if k++; stride > 1 && (k/3)%stride != phase {
+			return
+		}
+		res.Count("break:" + name)
+		rn.caseC18(x, "syntax-error-stream", nil)
+	})
 	r := common.NewRNG(f.Seed)
 	g := &gen18{r: r.Fork()}
 	nGen, nMut, nRaw := 20000, 6000, 6000
@@ -591,6 +694,6 @@ func runC18(rn *runner) {
 	runScan(rn, nDirs)
 	runUnquote(rn, nUq)
 	res.Exhaustive = false
-	res.Rule = fmt.Sprintf("corpus; %d hand-written inputs, each also with a BOM in front; %d grammar-based Go files (optional BOM, trivia = blanks/newlines/semicolons/line and block comments, package clause, 0-3 import declarations single or grouped, specs plain/named/./_, raw, interpreted and escaped path literals, followed by declarations), every one generated as an abstract section of the Coq grammar G, found well-formed (wf_section) and rendered to the same bytes with the same paths by the extracted model, and validated by go/parser (accepted, same import literals); %d byte-level mutations of such files; %d random token/byte soups (NUL, partial BOM, unterminated strings and comments); large inputs (600-3000 single/grouped/aliased imports, 50k-byte comments, path strings and identifiers, 20k blank lines / semicolons before and between imports, 20k-60k byte unterminated strings and comments) on the direct oracles only (the model is asked for inputs up to %d bytes). Non-trivial: go/parser accepts, or the reader reports imports or an error. Oracles: no panic / termination under a 20 s watchdog; the last 8 results (the returned slices themselves) stay byte-identical and prefixes of their inputs after every later call, including bursts of concurrent calls; output is a prefix of the input (BOM aside); syntax error with report=true => whole input and nil error with report=false (NUL error allowed when the input contains NUL); whenever go/parser accepts the input, same unquoted import paths in order with a nil error, and the returned prefix parses (ImportsOnly) to the same imports. Consumers: "+scanRule+" strconv.Unquote against the model's unquote on all pairs of an escape/UTF-8 atom vocabulary and on generated literals.",
+	res.Rule = fmt.Sprintf("corpus; %d hand-written inputs, each also with a BOM in front; "+breakRule()+"; %d grammar-based Go files (optional BOM, trivia = blanks/newlines/semicolons/line and block comments, package clause, 0-3 import declarations single or grouped, specs plain/named/./_, raw, interpreted and escaped path literals, followed by declarations), every one generated as an abstract section of the Coq grammar G, found well-formed (wf_section) and rendered to the same bytes with the same paths by the extracted model, and validated by go/parser (accepted, same import literals); %d byte-level mutations of such files; %d random token/byte soups (NUL, partial BOM, unterminated strings and comments); large inputs (600-3000 single/grouped/aliased imports, 50k-byte comments, path strings and identifiers, 20k blank lines / semicolons before and between imports, 20k-60k byte unterminated strings and comments) on the direct oracles only (the model is asked for inputs up to %d bytes). Non-trivial: go/parser accepts, or the reader reports imports or an error. Oracles: no panic / termination under a 20 s watchdog; the last 8 results (the returned slices themselves) stay byte-identical and prefixes of their inputs after every later call, including bursts of concurrent calls; output is a prefix of the input (BOM aside); any error with report=true other than the NUL error => whole input and nil error with report=false (NUL error allowed when the input contains NUL); with report=false the error is nil unless the input contains NUL; a file read without error gives identical results in both modes; whenever the reader finds fault with a NUL-free input in either mode, go/parser (ImportsOnly) reports on the bytes returned with report=false exactly the errors it reports on the input; whenever go/parser accepts the input, same unquoted import paths in order with a nil error, and the returned prefix parses (ImportsOnly) to the same imports. Translated source: every ReadImports case that goes to the model (both modes; every 8th also with imports == nil) is also answered by the extraction of read.go as translated by harness/go2coq (Gen/ImportsReadSrc.v, run with the bound 2*len+8 of the C18_source theorems) and compared with the implementation (bucket translated-source:*). Consumers: "+scanRule+" strconv.Unquote against the model's unquote on all pairs of an escape/UTF-8 atom vocabulary and on generated literals.",
 		len(handC18), nGen, nMut, nRaw, modelMaxLen)
 }
